@@ -94,9 +94,21 @@ def run_case(case):
             k += 1
         steps.append(mine)
     dims = {"maxdata": 4096, "remote": rng.choice(gen.REMOTE_REGIMES), "id_start": case["start"], "frag": "whole", "empty_rate": 0.0, "noise": []}
+    tt = rng.choice([None, None, 0, 0.001, 5])
+    if tt is not None:
+        for a in steps:
+            for st_ in a:
+                st_["transport_timeout_s"] = tt
+    reconnect = case["impl"] == "sync" and rng.random() < 0.15
+    if reconnect:
+        # one more actor closes and re-opens the connection in the middle of the others' opens (their operations may fail; ids may not collide)
+        steps.append([{"op": "reconnect"}])
+        nact += 1
     lp = rng.choice([0.2, 0.4, 0.7]) if case["impl"] == "sync" else 0.0
     strat = sched.RandomWalk(case["seed"], stay=rng.choice([0.2, 0.5]), line_prob=lp) if rng.random() < 0.7 else sched.PCT(case["seed"], nact, depth=rng.choice([1, 2, 3]), horizon=80, line_prob=lp)
-    res = run_opens(case["impl"], steps, strat, dims, lp > 0)
+    res = run_opens(case["impl"], steps, strat, dims, lp > 0, tolerate_errors=reconnect)
+    stats["reconnecting_schedules"] = 1 if reconnect else 0
+    stats["schedules_with_transport_timeout"] = 1 if tt is not None else 0
     stats["schedules"] += 1
     stats["opens"] += res["opens"]
     stats["wraparounds"] += res["wraps"]
@@ -112,7 +124,7 @@ def run_case(case):
     return {"sig": sig, "violations": list(seen.values())[:3], "stats": stats, "sample": sample}
 
 
-def run_opens(impl, actors_steps, strategy, dims, line):
+def run_opens(impl, actors_steps, strategy, dims, line, tolerate_errors=False):
     res = {"viol": [], "opens": 0, "wraps": 0, "distinct": 0, "line_yields": 0, "switches": 0, "trace": None, "ids": []}
     try:
         if impl == "sync":
@@ -135,6 +147,11 @@ def run_opens(impl, actors_steps, strategy, dims, line):
             def make(ai):
                 def fn():
                     for i, step in enumerate(actors_steps[ai]):
+                        if step["op"] == "reconnect":
+                            o1 = sess.call("close")
+                            o2 = sess.call("connect")
+                            results[ai].append((step, o2, []))
+                            continue
                         results[ai].append((step,) + runners[ai].run_step(i, step))
                 return fn
             if line:
@@ -173,6 +190,10 @@ def run_opens(impl, actors_steps, strategy, dims, line):
         res["distinct"] = len(set(ids))
         res["wraps"] = 1 if ids and min(ids) < 100 and max(ids) > 0xFFFFFF00 else 0
         where = "%s, counter preset to %d, %s" % (impl, dims["id_start"], " || ".join("+".join(x["op"] for x in a) for a in actors_steps))
+        if tolerate_errors:
+            results = [[] for _ in results]          # operations may fail when the connection is replaced under them; only the ids are judged
+            s.errors = []
+            s.deadlock = None
         for mv in sess.monitor.of("C14"):
             res["viol"].append({"mechanism": mv.rule, "detail": "%s: %s" % (where, mv.detail)})
         if s.deadlock:
